@@ -21,7 +21,7 @@ import (
 func init() {
 	core.Register(&core.Prop{
 		ID:          "C12",
-		MaxBatch: 30,
+		MaxBatch:    30,
 		Level:       "exploration",
 		Workers:     4,
 		Race:        true,
